@@ -1,9 +1,9 @@
 package rules
 
 import (
-	"go/types"
-	"go/token"
 	"go/ast"
+	"go/token"
+	"go/types"
 	"sort"
 	"strings"
 
